@@ -396,6 +396,41 @@ func vfC11clVoucherCodec(out *vfh.Result) {
 	out.Count(1, n)
 }
 
+// the transport's surface the swarm relies on
+func vfC11clSurface(t *testing.T, out *vfh.Result) {
+	vfC11clBubble(t, out, "transport surface", func(t *testing.T) {
+		s, err := vfC11clNewSys(vfC11clDirectCfg("surface"), vfC11clVariant{n: 1}, out)
+		if err != nil {
+			t.Fatal(err)
+		}
+		defer s.shutdown()
+		r, d := s.v.id("r1").String(), s.v.id("d1").String()
+		for a, want := range map[string]bool{
+			"/ip4/203.0.113.1/tcp/4001/p2p/" + r + "/p2p-circuit":             true,
+			"/p2p/" + r + "/p2p-circuit/p2p/" + d:                             true,
+			"/p2p-circuit":                                                    true,
+			"/ip4/203.0.113.1/tcp/4001/p2p/" + r:                              false,
+			"/ip4/203.0.113.1/udp/4001/quic-v1":                               false,
+			"/dns4/example.org/tcp/443/tls/ws/p2p/" + r + "/p2p-circuit/p2p/" + d: true,
+		} {
+			if got := s.cl.CanDial(ma.StringCast(a)); got != want {
+				s.mismatch("transport-surface", fmt.Sprintf("CanDial(%s) = %v", a, got), want, got)
+			}
+		}
+		if p := s.cl.Protocols(); len(p) != 1 || p[0] != ma.P_CIRCUIT || !s.cl.Proxy() || !s.cl.SkipResolve(context.Background(), ma.StringCast("/p2p-circuit")) {
+			s.mismatch("transport-surface", fmt.Sprintf("Protocols %v Proxy %v", p, s.cl.Proxy()), "[290] true", fmt.Sprint(p))
+		}
+		l := s.cl.Listener()
+		if !l.Multiaddr().Equal(ma.StringCast("/p2p-circuit")) || l.Addr().Network() != "libp2p-circuit-relay" {
+			s.mismatch("transport-surface", fmt.Sprintf("Listener.Multiaddr %s Addr %v", l.Multiaddr(), l.Addr()), "/p2p-circuit", l.Multiaddr().String())
+		}
+		if s.stopHandler() == nil {
+			s.mismatch("transport-surface", "Start() did not register a handler for "+circuitproto.ProtoIDv2Stop, "handler", "none")
+		}
+		out.Count(1, 1)
+	})
+}
+
 func TestVerifC11clDirect(t *testing.T) {
 	if err := vfC11clInit(); err != nil {
 		t.Fatalf("init: %v", err)
@@ -420,6 +455,7 @@ func TestVerifC11clDirect(t *testing.T) {
 		vfC11clAcceptRace(t, out, n+seed*iters)
 	}
 	restore()
+	vfC11clSurface(t, out)
 	vfC11clVoucherCodec(out)
 	if err := out.Write(); err != nil {
 		t.Fatal(err)
